@@ -247,26 +247,20 @@ Proof.
   destruct (find_enum D full) as [e|] eqn:Ef; [|exact I].
   assert (He : In e (d_enums D)) by (eapply find_enum_In; eauto).
   assert (Hne : enum_nonempty e) by (apply (proj1 Hwt); exact He).
-  assert (Hst1 : match (match lookup st (enum_key e) with
-                        | Some _ => Ok st
-                        | None => obind (build_enum e) (fun r => Ok ((enum_key e, Linked r) :: st))
-                        end) with
+  assert (Hst1 : match enum_ref st e with
                  | Ok st1 => InvS st1 /\ ext st st1 /\ noplace st st1 /\
                              exists a b c d g, lookup st1 (enum_key e) = Some (Linked (REnum a b c d g))
                  | Err _ => True
                  | _ => False
                  end).
-  { destruct (lookup st (enum_key e)) as [en|] eqn:El.
-    - split; [exact HI|]. split; [apply ext_refl|]. split; [apply noplace_refl|].
-      pose proof (proj1 HI e He) as Hen. unfold enum_entry_ok in Hen. rewrite El in Hen.
-      destruct en as [|[| |a b c d g]]; try contradiction. eauto 10.
-    - pose proof (build_enum_shape e Hne) as Hs. destruct (build_enum e) as [r| | |]; cbn [obind]; try exact Hs.
-      split; [apply InvS_cons_enum; assumption|]. split; [apply ext_cons|]. split; [apply noplace_cons_linked|].
-      destruct Hs as (a & b & c & d & g & ->). rewrite lookup_cons, ref_eqb_refl. eauto 10. }
-  destruct (match lookup st (enum_key e) with
-            | Some _ => Ok st
-            | None => obind (build_enum e) (fun r => Ok ((enum_key e, Linked r) :: st))
-            end) as [st1| | |]; cbn [obind]; try exact Hst1.
+  { pose proof (enum_ref_shape st e Hne) as Hsh.
+    destruct (enum_ref st e) as [st1| | |] eqn:Er; try exact Hsh.
+    destruct Hsh as (He1 & _ & Hl).
+    destruct (enum_ref_inv st e st1 Er) as [[-> _]|(El & r & Eb & ->)].
+    - split; [exact HI|]. split; [apply ext_refl|]. split; [apply noplace_refl|exact Hl].
+    - pose proof (build_enum_shape e Hne) as Hs. rewrite Eb in Hs.
+      split; [apply InvS_cons_enum; assumption|]. split; [apply ext_cons|]. split; [apply noplace_cons_linked|exact Hl]. }
+  destruct (enum_ref st e) as [st1| | |]; cbn [obind]; try exact Hst1.
   destruct Hst1 as (HI1 & He1 & Hn1 & a & b & c & d & g & Hl).
   assert (Hfin : forall rules lr, Ps fst Qs st (Ok (st1, FEnum (enum_key e) rules lr None))).
   { intros rules lr. unfold Ps, Qs. cbn [fst snd field_refs field_importable].
@@ -302,7 +296,8 @@ Proof.
     { intros st2 s H1 H2 H3 H4 (fl & lr & [->| ->]); unfold Ps, Qs; cbn [fst snd field_refs field_importable];
         (split; [exact H1|]; split; [exact H2|]; split; [exact H3|]; split; [reflexivity|];
          intros k Hk; destruct Hk as [<-|[]]; exact H4). }
-    destruct (lookup st (msg_key m)) as [en|] eqn:El; cbn [obind].
+    destruct (lookup st (msg_key m)) as [en|] eqn:El; [destruct (is_enum_entry en)|]; cbn [obind].
+    + exact I.
     + apply Hres; try assumption; try apply ext_refl; try apply noplace_refl; [eapply has_key_lookup; eauto|].
       destruct (is_oneof_wrapper m); [exists false; eexists; right; reflexivity|eexists; exists None; left; reflexivity].
     + assert (Hk : has_key st (msg_key m) = false) by (unfold has_key; rewrite El; reflexivity).
